@@ -172,7 +172,19 @@ class Runtime:
         if key == "missing":
             # a declared plain typed field (identity serializer) the program never supplies
             return eliot.Field.forTypes(key, [int], "")
-        return eliot.Field(key, self.serializer(sid), "")
+        ser = self.serializer(sid)
+        if sid % 4 == 1:
+            # an application's own Field class: the serializing is done by its public `serialize` method (the documented
+            # extension point), the constructor argument is the identity
+            class OwnField(eliot.Field):
+                def serialize(self_, input):
+                    return ser(input)
+
+            f = OwnField(key, lambda v: v, "")
+            f.serialize.__func__._harness_sid = sid
+            f._harness_own = True
+            return f
+        return eliot.Field(key, ser, "")
 
     def final_snapshot_check(self):
         for d, snap, snapshot in self.caller_dicts:
@@ -332,7 +344,7 @@ def run_case(case):
         declared = sorted(k for k in getattr(serializer, "fields", {})) if serializer is not None else None
         # the declared fields whose serializer is one of the program's (tagging) serializers: they must arrive serialized
         tagging = sorted(k for k, f in getattr(serializer, "fields", {}).items()
-                         if hasattr(getattr(f, "_serializer", None), "_harness_sid")) if serializer is not None else None
+                         if hasattr(getattr(f, "_serializer", None), "_harness_sid") or getattr(f, "_harness_own", False)) if serializer is not None else None
         rt.writes.append((rt.canon_msg(dictionary), serializer is not None, declared, tagging))
         try:
             return orig_write(self, dictionary, serializer)
